@@ -56,3 +56,4 @@ func verifNote(s string)
 func verifAt(b []byte, i int) uint8
 func verifAtU32(s []uint32, i int) uint32
 func verifWant(id string)
+func verifRange(name string, lo, hi int) int
